@@ -379,9 +379,10 @@ func innermostParseFn(blk string) string {
 }
 
 // classifyStacks looks for the goroutine that keeps a parse from returning:
-//   lexer   a scanner goroutine is running/runnable inside a state function
-//   parser  the parsing goroutine is running/runnable (not waiting for an item)
-//   blocked both sides wait
+//
+//	lexer   a scanner goroutine is running/runnable inside a state function
+//	parser  the parsing goroutine is running/runnable (not waiting for an item)
+//	blocked both sides wait
 func classifyStacks() (kind, frame, stacks string) {
 	st := allStacks()
 	var lexRun, lexWait, parRun, parWait string
